@@ -109,7 +109,7 @@ func mapRangesIn(fn *ssa.Function) []*mapRange {
 
 // normalExit is the successor taken when the iteration is exhausted.
 func (mr *mapRange) normalExit() *ssa.BasicBlock {
-	if len(mr.Head.Succs) == 2 {
+	if mr.Head != nil && len(mr.Head.Succs) == 2 {
 		return mr.Head.Succs[1]
 	}
 	return nil
@@ -1081,6 +1081,13 @@ func (s *orderScan) checkCollection(mr *mapRange, c collRef) {
 			afterLoop[in.Block()] = true
 		}
 	}
+	if mr.Head == nil {
+		// no loop in this function: the slice was filled in map order by a library helper
+		// (libraryCollection); every use of the value comes after it
+		for _, b := range mr.Fn.Blocks {
+			afterLoop[b] = true
+		}
+	}
 	var unsorted []ssa.Instruction
 	sorted := false
 	onlyErrJoin := true
@@ -1180,4 +1187,113 @@ type collRef struct {
 	phi   *ssa.Phi
 	alloc *ssa.Alloc
 	val   ssa.Value
+}
+
+// ---------------------------------------------------------------------------------------------
+// Map iteration through library helpers (no ssa.Range in the workspace)
+
+// mapIterHelpers: library functions that iterate a map in unspecified order. "seq": the result is an
+// iterator over keys/values, "seq2" over entries, "slice": a slice filled in map order; "" = a form
+// that is not analysed.
+var mapIterHelpers = map[string]string{
+	"maps.Keys": "seq", "maps.Values": "seq", "maps.All": "seq2",
+	"golang.org/x/exp/maps.Keys": "slice", "golang.org/x/exp/maps.Values": "slice",
+	"(reflect.Value).MapKeys": "", "(reflect.Value).MapRange": "", "k8s.io/apimachinery/pkg/util/sets.KeySet": "",
+}
+
+// classifyMapIterHelper decides a call of one of the mapIterHelpers the way a hand-written loop is
+// decided: an iterator that is consumed by slices.Sorted* is ordered; one that is collected into a
+// slice (slices.Collect / slices.AppendSeq) is a slice filled in map order, which has to be sorted
+// before any other use (checkCollection, the rule for `for k := range m { s = append(s, k) }`); an
+// entry iterator that only fills a map (maps.Collect / maps.Insert) commutes. Anything else — the
+// iterator ranged over, passed on, stored — is unknown.
+func (p *Program) classifyMapIterHelper(site ssa.Instruction, id string) (notes []string, probs []orderProblem) {
+	s := &orderScan{p: p, seen: map[*ssa.Function]bool{}}
+	unknown := func(format string, a ...any) ([]string, []orderProblem) {
+		s.problem("map-iteration-helper", true, site, format, a...)
+		return s.notes, s.probs
+	}
+	kind := mapIterHelpers[id]
+	call, isCall := site.(*ssa.Call)
+	if kind == "" || !isCall {
+		return unknown("%s iterates a map in unspecified order; this form is not analysed by the lint — sort the result or range over the map directly", id)
+	}
+	if calleeID(call.Common()) != id {
+		return unknown("%s is used as a function value; not analysed", id)
+	}
+	fn := site.Parent()
+	var colls []ssa.Value
+	if kind == "slice" {
+		colls = append(colls, call)
+	} else {
+		for _, r := range referrersOf(call) {
+			if _, isDbg := r.(*ssa.DebugRef); isDbg {
+				continue
+			}
+			rc, ok := r.(*ssa.Call)
+			if !ok {
+				return unknown("the iterator returned by %s is not consumed by a recognised collector at %s (slices.Sorted*, slices.Collect, slices.AppendSeq, maps.Collect, maps.Insert); ranging over it or passing it on is not analysed", id, p.IPos(r))
+			}
+			cid := calleeID(rc.Common())
+			args := rc.Common().Args
+			switch {
+			case kind == "seq" && (cid == "slices.Sorted" || cid == "slices.SortedFunc" || cid == "slices.SortedStableFunc") && len(args) >= 1 && args[0] == ssa.Value(call):
+				s.note("the iterator of %s is consumed by %s: the result is sorted", id, cid)
+			case kind == "seq" && cid == "slices.Collect" && len(args) == 1 && args[0] == ssa.Value(call):
+				colls = append(colls, rc)
+			case kind == "seq" && cid == "slices.AppendSeq" && len(args) == 2 && args[1] == ssa.Value(call) && args[0] != ssa.Value(call):
+				colls = append(colls, rc)
+			case kind == "seq2" && cid == "maps.Collect" && len(args) == 1:
+				s.note("the entries of %s only fill a new map (maps.Collect): distinct keys commute", id)
+			case kind == "seq2" && cid == "maps.Insert" && len(args) == 2 && args[1] == ssa.Value(call):
+				s.note("the entries of %s are only inserted into a map (maps.Insert): distinct keys commute", id)
+			default:
+				return unknown("the iterator returned by %s is passed to %s at %s; not analysed", id, cid, p.IPos(r))
+			}
+		}
+	}
+	mr := &mapRange{Fn: fn, Body: map[*ssa.BasicBlock]bool{}}
+	for _, v := range colls {
+		c := collRef{val: v}
+		// a variable go/ssa keeps in memory (captured by the comparator closure of the sort call)
+		var stores []*ssa.Store
+		other := 0
+		for _, r := range referrersOf(v) {
+			switch x := r.(type) {
+			case *ssa.DebugRef:
+			case *ssa.Store:
+				if x.Val == v {
+					stores = append(stores, x)
+				} else {
+					other++
+				}
+			default:
+				other++
+			}
+		}
+		if len(stores) == 1 && other == 0 {
+			al, isAlloc := stores[0].Addr.(*ssa.Alloc)
+			if !isAlloc {
+				return unknown("the slice collected from %s is stored into %s; not analysed", id, p.describe(stores[0].Addr))
+			}
+			n := 0
+			for _, r := range referrersOf(al) {
+				if st, isSt := r.(*ssa.Store); isSt && st.Addr == ssa.Value(al) {
+					n++
+				}
+			}
+			if n != 1 {
+				return unknown("the variable holding the slice collected from %s is assigned more than once; not analysed", id)
+			}
+			c = collRef{alloc: al}
+		} else if len(stores) > 0 {
+			return unknown("the slice collected from %s is both stored and used directly; not analysed", id)
+		}
+		before := len(s.probs)
+		s.checkCollection(mr, c)
+		for i := before; i < len(s.probs); i++ {
+			s.probs[i].Detail += " (collected from " + id + ")"
+		}
+	}
+	return s.notes, s.probs
 }
